@@ -136,6 +136,16 @@ CHECKS = {
         "outcome as documented (animations end silently on Ctrl-C, stills propagate).",
         note="Graphics-capable personalities keep consuming an unterminated APC/OSC until ST (what the library's handlers exist for); clean-up ranges come from the AST of the current tree.",
     ),
+    "C11": dict(
+        level="exploration",
+        technique="runtime monitor: frame-by-frame differential (iterator vs direct formatting), open-file census, weak registry of images the library opens, temp-dir listing, loopback HTTP server, PIL failure injection at every call",
+        text="Histories over file / PIL / URL sources (stills and 2..5-frame animations, all styles, specs incl. +A fallback, cache, repeat, "
+        "seeks, early close, abandonment, str/format/draw in between): every yielded frame equals formatting that frame directly, tell() tracks "
+        "and returns to 0, draw() leaves it alone, size setting untouched; after each history the fd count is back to baseline, no "
+        "library-opened image is alive and open, the caller's image still works, URL temp files exist exactly while open (none after failed "
+        "construction); a failure is injected at each PIL call of a render/iteration/draw and the census taken while the exception is alive.",
+        note="fd census on CPython (reference counting); the HTTP server runs out of process so its sockets are not counted; animated PNG excluded (Pillow 11.1 APNG rewind bug).",
+    ),
 }
 
 NOT_APPLICABLE = {
